@@ -61,3 +61,42 @@ Definition lazy_remove (L : lazy) (B : nat) (out_dim : nat) : lazy :=
 
 (* the memoisation key of the batched view: (in_dim, vmap_level) *)
 Definition vmap_cache_key (in_dim : Z) (level : nat) : Z * nat := (in_dim, level).
+
+(* ---------------- what a vmapped function does with the (possibly hidden-stack-dim) lazy view: op classes ----------------
+   _lazy.py: a LazyStackedTensorDict vmapped along its stack dim keeps its members, hides the stack dim from _batch_size and
+   carries hook_out / hook_in / _is_vmapped (_cached_add_batch_dims, 1458-1489).  Operations then fall in classes:
+     HSelf      return the view itself: identity, and the in-place writers (set / set_ / update / update_ go through hook_in,
+                _lazy.py:602,652,870,973,2973, and return self)
+     HNested e  get(nested key): a lazy stack of the nested members, to which _get_str (1189-1199) copies hook_out, hook_in,
+                _is_vmapped and a patched _batch_size; e = the extra batch dims of the nested tensordict.  When the vmapped
+                dim is NOT the stack dim the members were rebuilt by _fast_apply(.., batch_size = member batch size minus
+                in_dim) (1436-1452), which overrides the batch size of the NESTED tensordicts too: e is lost (D192)
+     HDense     builds a regular tensordict from the leaves read through hook_out (to_tensordict, contiguous,
+                TensorDict({k: x.get(k)}, x.batch_size))
+     HRebuild   builds a NEW lazy stack from the members with LazyStackedTensorDict(op(m_0), .., op(m_n), stack_dim=
+                self.stack_dim) and NO hooks: clone, copy, apply, select, exclude, unsqueeze ... (D33) *)
+Inductive hop := HSelf | HNested (extra : list nat) | HDense | HRebuild.
+Inductive hres := HLazy (L : lazy) | HTd (bsz : list nat).
+
+(* switch for D33: with the suggested repair the rebuilt stack keeps the hooks / _is_vmapped of the one it was built from *)
+Definition fixed_D33 : bool := false.
+
+Definition lazy_apply_gen (fx : bool) (op : hop) (L : lazy) : hres :=
+  match op with
+  | HSelf => HLazy L
+  | HNested e => HLazy {| mbs := if hidden L then mbs L ++ e else mbs L; nmem := nmem L; sd := sd L; hidden := hidden L |}
+  | HDense => HTd (lazy_bs L)
+  | HRebuild => HLazy {| mbs := mbs L; nmem := nmem L; sd := sd L; hidden := if fx then hidden L else false |}
+  end.
+Definition lazy_apply := lazy_apply_gen fixed_D33.
+
+(* batch size of the per-sample result (the op applied to ONE slice along the vmapped dim), for the spec *)
+Definition hop_sample_bs (op : hop) (sample_bs : list nat) : list nat :=
+  match op with HNested e => sample_bs ++ e | _ => sample_bs end.
+
+(* _maybe_remove_batch_dim on what the function returned *)
+Definition hres_remove (r : hres) (B : nat) (out_dim : nat) : list nat :=
+  match r with
+  | HLazy L => lazy_bs (lazy_remove L B out_dim)
+  | HTd b => td_remove b B (Z.of_nat out_dim)
+  end.
